@@ -137,8 +137,10 @@ func sharedFieldEntry() *entry {
 			}
 			c.Count("alias_siblings_compared", 1)
 			smp.After = qb(b1)
+			changed := false
 			if !bytes.Equal(b0, b1) {
-				violate(c, "codec:I:form.Data:shared-Field:"+op+":sibling-form-changed", "after %s on one form, ANOTHER form built from the same form.Field values encodes differently\nbefore: %s\nafter:  %s", op, qb(b0), qb(b1))
+				changed = true
+				violate(c, "codec:I:form.Data:shared-Field:forms-not-independent", "after %s on one form, ANOTHER form built from the same form.Field values encodes differently\nbefore: %s\nafter:  %s", op, qb(b0), qb(b1))
 			} else {
 				// and it still round-trips
 				var back form.Data
@@ -152,8 +154,8 @@ func sharedFieldEntry() *entry {
 			if guard(c, "form.Data", "constructors", func() { d3 = form.New(fields...) }) {
 				return
 			}
-			if c1, ok = marshalForm(c, d3, "MarshalXML(later form)"); ok && !bytes.Equal(b0, c1) {
-				violate(c, "codec:I:form.Data:shared-Field:"+op+":later-form-changed", "after %s on one form, a NEW form built from the same form.Field values encodes differently from the first ones\nbefore: %s\nafter:  %s", op, qb(b0), qb(c1))
+			if c1, ok = marshalForm(c, d3, "MarshalXML(later form)"); ok && !bytes.Equal(b0, c1) && !changed {
+				violate(c, "codec:I:form.Data:shared-Field:forms-not-independent", "after %s on one form, a NEW form built from the same form.Field values encodes differently from the first ones\nbefore: %s\nafter:  %s", op, qb(b0), qb(c1))
 			}
 			// ---- a read-only operation leaves its own form unchanged
 			if readOnlyOp[op] {
